@@ -2,8 +2,10 @@
 
 All ordered forests with <=4 (quick) / <=5 (thorough) Sections x all sibling-unique name
 assignments over names that are prefixes of one another; every node, every ordered pair, every
-start x depth x flag combination; plus a fixed family of large deterministic trees.  Oracle:
-ref/paths.py (independent resolver and BFS over the object graph)."""
+start x depth x flag combination; plus a fixed family of large deterministic trees; plus (layer
+'detached') the traversal / find clauses from every node of trees that are not inside a Document: built
+without one, taken out of one with remove(), or clone()d.  Oracle: ref/paths.py (independent resolver and
+BFS over the object graph)."""
 import itertools
 
 from gen import docs
@@ -16,11 +18,16 @@ RULE = ("all ordered forests with <=N Sections x all assignments of names from {
         "siblings; per document: every Section/Property path looked up from the Document and from every Section, "
         "every ordered pair for relative paths, every start x max_depth in {None,0..depth+1} x yield_self x "
         "filter for the three traversals, find / find_related over keys x types x all flag combinations; "
+        "layer 'detached' (forests with <=N-1 Sections): every top-level tree built without a Document, every "
+        "Section removed from its parent (fresh document each time), every Section cloned with and without "
+        "children; traversals and find / find_related (smaller trees) from every node of the Document-less tree, "
+        "path clauses not judged there; "
         "non-trivial = document with >= 2 Sections (pairs and depth limits exist)")
 NAMES = ["a", "ab", "a.b", "b", "A"]        # prefixes of each other, a dot, and a pair that differs only in case
 TYPES = ["t", "stim/white", "stim", "T"]
 WATCHDOG_S = 60
 FIND_MAX = 4
+ORIGINS = ["built-without-document", "removed-from-parent", "cloned", "cloned-without-children"]
 
 
 def namings(shape):
@@ -60,30 +67,42 @@ def gen_cases(tier):
                 cases.append({"layer": "small", "shape": shape, "names": names, "n": n})
     for fam in ("path12", "star30", "binary5", "caterpillar"):
         cases.append({"layer": "large", "family": fam})
+    # start points that are not inside a Document (the traversal and find clauses speak of "the start point",
+    # not of a document): the same forests and namings, one size smaller; find on trees one size smaller again
+    for n in range(1, nmax):
+        for shape in docs.tree_shapes(n):
+            for names in namings(shape):
+                cases.append({"layer": "detached", "shape": shape, "names": names, "n": n,
+                              "find": n <= nmax - 2})
     return cases
 
 
-def build_case(case):
-    if case["layer"] == "small":
-        def props(i):
-            if i % 3 == 2:
-                return []             # Sections without Properties: an empty leaf Section is a falsy object
-            ps = [{"name": "p", "values": ["v%d" % i]}]
-            if i % 2 == 0:
-                ps.append({"name": "a", "values": [i, i + 1]})
-            if i % 4 == 1:
-                ps.append({"name": "P", "values": ["upper"]})      # differs from 'p' only in case
-            return ps
-        secs = docs.name_forest(case["shape"], names=case["names"], props=props)
-        n = [0]
+def small_specs(case):
+    """Section specs (top-level list) of a 'small' / 'detached' case."""
+    def props(i):
+        if i % 3 == 2:
+            return []             # Sections without Properties: an empty leaf Section is a falsy object
+        ps = [{"name": "p", "values": ["v%d" % i]}]
+        if i % 2 == 0:
+            ps.append({"name": "a", "values": [i, i + 1]})
+        if i % 4 == 1:
+            ps.append({"name": "P", "values": ["upper"]})      # differs from 'p' only in case
+        return ps
+    secs = docs.name_forest(case["shape"], names=case["names"], props=props)
+    n = [0]
 
-        def settype(lst):
-            for s in lst:
-                s["type"] = TYPES[n[0] % len(TYPES)]
-                n[0] += 1
-                settype(s["sections"])
-        settype(secs)
-        return docs.build(docs.doc_of(secs))
+    def settype(lst):
+        for s in lst:
+            s["type"] = TYPES[n[0] % len(TYPES)]
+            n[0] += 1
+            settype(s["sections"])
+    settype(secs)
+    return secs
+
+
+def build_case(case):
+    if case["layer"] in ("small", "detached"):
+        return docs.build(docs.doc_of(small_specs(case)))
     import odml
     doc = odml.Document()
     fam = case["family"]
@@ -144,7 +163,68 @@ def relation(a, b):
     return "other-branch"
 
 
+def detached_roots(case):
+    """(origin, root Section) for every way this case yields a tree that is not inside a Document.
+    A fresh Document is built for every removal; clones are taken from one untouched Document."""
+    out = []
+    for spec in small_specs(case):
+        out.append(("built-without-document", docs.build_section(spec, None)))
+    n = len(all_sections(build_case(case)))
+    for i in range(n):
+        sec = all_sections(build_case(case))[i]
+        par_ = sec.parent
+        par_.remove(sec)
+        out.append(("removed-from-parent", sec))
+    doc = build_case(case)
+    for sec in all_sections(doc):
+        out.append(("cloned", sec.clone()))
+        out.append(("cloned-without-children", sec.clone(children=False)))
+    return out
+
+
+def run_detached(case):
+    """Traversal and find clauses with start points that are not inside a Document.  The path clauses are
+    quantified over objects "of a document" and are not judged here."""
+    D, S, P = tree._kinds()
+    fails = []
+    execs = 0
+    seen = set()
+    origin = [None]
+
+    def fail(check, desc, observed=None, expected=None, explain=""):
+        desc = dict(desc, origin=origin[0])
+        key = (check, tuple(sorted((k, str(v)) for k, v in desc.items())))
+        if key in seen:
+            return
+        seen.add(key)
+        desc["layer"] = case["layer"]
+        fails.append(report.failure(check, desc, case, observed=observed, expected=expected, explain=explain))
+
+    roots = detached_roots(case)
+    biggest = 0
+    outcomes = set()
+    for org, root in roots:
+        origin[0] = org
+        if root.parent is not None or isinstance(root, D):
+            outcomes.add("%s-still-has-a-parent" % org)     # not this property's subject; shown in the evidence
+            continue
+        nodes = [root] + refp.bfs_sections(root)
+        biggest = max(biggest, len(nodes))
+        outcomes.add("%s-sections-%d" % (org, len(nodes)))
+        height = max(len(refp.ancestors(x)) for x in nodes)
+        depths = [None] + list(range(0, height + 2))
+        label = lambda st, root=root: {"start": "section-without-parent" if st is root
+                                       else "section-below-a-section-without-parent"}
+        execs += traversal_checks(nodes, depths, fail, label)
+        if case["find"]:
+            execs += find_checks(None, nodes, fail)
+    return {"failures": fails, "outcomes": sorted(outcomes), "nontrivial": int(biggest >= 2),
+            "execs": execs, "states": 1}
+
+
 def run_case(case):
+    if case["layer"] == "detached":
+        return run_detached(case)
     doc = build_case(case)
     D, S, P = tree._kinds()
     secs = all_sections(doc)
@@ -231,6 +311,18 @@ def run_case(case):
     dmax = depth_of(doc) + 1
     depths = [None] + list(range(0, dmax + 1)) if case["layer"] == "small" else [None, 0, 1, 2, dmax]
     tstarts = starts if case["layer"] == "small" else starts[:8]
+    execs += traversal_checks(tstarts, depths, fail, lambda st: {"start": "document" if st is doc else "section"})
+    # 4. find / find_related
+    if case["layer"] == "small" and case["n"] <= FIND_MAX:
+        execs += find_checks(doc, starts, fail)
+    return {"failures": fails, "outcomes": ["sections-%d" % min(len(secs), 6)], "nontrivial": int(len(secs) >= 2),
+            "execs": execs, "states": 1}
+
+
+def traversal_checks(tstarts, depths, fail, label):
+    """itersections / iterproperties / itervalues from every start x max_depth x yield_self x filter against
+    the reference BFS.  label(start) gives the descriptor entries that name the kind of start point."""
+    execs = 0
     for st in tstarts:
         for md in depths:
             for ys in (False, True):
@@ -247,9 +339,9 @@ def run_case(case):
                     except Exception as exc:
                         got = ["<%s>" % type(exc).__name__]
                     if len(got) != len(want) or any(g is not w for g, w in zip(got, want)):
-                        fail("traversal", {"clause": "itersections-differs", "start": "document" if st is doc else "section",
+                        fail("traversal", dict(label(st), **{"clause": "itersections-differs",
                                            "max_depth": "None" if md is None else ("0" if md == 0 else "n"),
-                                           "yield_self": ys, "filter": fname},
+                                           "yield_self": ys, "filter": fname}),
                              [tree._nm(x) if not isinstance(x, str) else x for x in got],
                              [tree._nm(x) for x in want], "start %s max_depth %r" % (tree._nm(st), md))
             for fname, ffunc in (("all", None), ("named-a", lambda x: x.name == "a")):
@@ -266,8 +358,8 @@ def run_case(case):
                 except Exception as exc:
                     got = ["<%s>" % type(exc).__name__]
                 if len(got) != len(wprops) or any(g is not w for g, w in zip(got, wprops)):
-                    fail("traversal", {"clause": "iterproperties-differs", "start": "document" if st is doc else "section",
-                                       "max_depth": "None" if md is None else ("0" if md == 0 else "n"), "filter": fname},
+                    fail("traversal", dict(label(st), **{"clause": "iterproperties-differs",
+                                       "max_depth": "None" if md is None else ("0" if md == 0 else "n"), "filter": fname}),
                          [tree._nm(x) if not isinstance(x, str) else x for x in got], [tree._nm(x) for x in wprops])
             execs += 1
             wsecs = refp.bfs_sections(st, md, include_start=True)
@@ -279,13 +371,9 @@ def run_case(case):
             except Exception as exc:
                 got = gotf = ["<%s>" % type(exc).__name__]
             if got != wvals or gotf != wvals_f:
-                fail("traversal", {"clause": "itervalues-differs", "start": "document" if st is doc else "section",
-                                   "max_depth": "None" if md is None else ("0" if md == 0 else "n")}, got, wvals)
-    # 4. find / find_related
-    if case["layer"] == "small" and case["n"] <= FIND_MAX:
-        execs += find_checks(doc, starts, fail)
-    return {"failures": fails, "outcomes": ["sections-%d" % min(len(secs), 6)], "nontrivial": int(len(secs) >= 2),
-            "execs": execs, "states": 1}
+                fail("traversal", dict(label(st), **{"clause": "itervalues-differs",
+                                   "max_depth": "None" if md is None else ("0" if md == 0 else "n")}), got, wvals)
+    return execs
 
 
 KEYS = [None, "a", "ab", "zz"]
@@ -396,11 +484,14 @@ def check(tier):
         "'large random trees' of the quantifier are replaced by a fixed family of large deterministic trees",
         "EITHER: the start Section among its own siblings; the Document among the parents when neither name nor type is requested",
         "findAll results are compared as sets",
+        "layer 'detached': the path clauses speak of objects 'of a document' and are not judged for trees without one; "
+        "relations of find_related end at the Section without parent",
     ])
     cases = gen_cases(tier)
     run.bounds = {"max_sections": 5 if tier == "quick" else 6, "names": NAMES, "find_on_trees_up_to": 3}
     run.layer("small", cases=sum(1 for c in cases if c["layer"] == "small"))
     run.layer("large", cases=sum(1 for c in cases if c["layer"] == "large"))
+    run.layer("detached", cases=sum(1 for c in cases if c["layer"] == "detached"))
     par.run_cases(run, "checks.c14", cases, nchunks=par.JOBS * 16)
     return run.finish(reproduce=lambda f: replay(f))
 
